@@ -421,8 +421,19 @@ func RunOperands(c *core.Ctx) {
 	for i := 0; i < nrun; i++ {
 		c.Steps++
 		ops = ops[:0]
-		kind := t.Choose(12)
-		w.how = []string{"VaddV", "VmulV", "VdivS", "MdotV", "VdotM", "MaddM", "MmulM", "MdotM", "Outer", "Set", "JointIterator", "Equals"}[kind]
+		kind := t.Choose(21)
+		w.how = []string{"VaddV", "VmulV", "VdivS", "MdotV", "VdotM", "MaddM", "MmulM", "MdotM", "Outer", "Set", "JointIterator", "Equals",
+			"VsubV", "VdivV", "VaddS", "VmulS", "MsubM", "MdivM", "MaddS", "MmulS", "MdivS"}[kind]
+		// the concrete-type variant (VADDV, MDOTM, ...) where the receiver has one
+		// for operands of these concrete types; the interface method otherwise
+		typed := t.Bool(1, 3)
+		call := func(recv interface{}, upper string, iface func(), args ...interface{}) {
+			if typed && typedCall(recv, upper, args...) {
+				c.Count("typed-variant:" + upper)
+				return
+			}
+			iface()
+		}
 		va, vb := &operand{name: "a", v: mkVector(e, sa, intVals(t, n))}, &operand{name: "b", v: mkVector(e, sb, intVals(t, n))}
 		ma, mb := &operand{name: "A", m: mkMatrix(e, sa, n, k, intVals(t, n*k))}, &operand{name: "B", m: mkMatrix(e, sb, k, n, intVals(t, k*n))}
 		mc := &operand{name: "C", m: mkMatrix(e, sb, n, k, intVals(t, n*k))}
@@ -438,39 +449,39 @@ func RunOperands(c *core.Ctx) {
 		case 0:
 			ops = append(ops, va, vb)
 			snapAll()
-			w.soft(w.how, func() { mkV(n).VaddV(va.v, vb.v) })
+			w.soft(w.how, func() { r := mkV(n); call(r, "VADDV", func() { r.VaddV(va.v, vb.v) }, va.v, vb.v) })
 		case 1:
 			ops = append(ops, va, vb)
 			snapAll()
-			w.soft(w.how, func() { mkV(n).VmulV(va.v, vb.v) })
+			w.soft(w.how, func() { r := mkV(n); call(r, "VMULV", func() { r.VmulV(va.v, vb.v) }, va.v, vb.v) })
 		case 2:
 			ops = append(ops, va)
 			snapAll()
-			w.soft(w.how, func() { mkV(n).VdivS(va.v, ad.NewScalar(e.t, 2)) })
+			w.soft(w.how, func() { r, x := mkV(n), ad.NewScalar(e.t, 2); call(r, "VDIVS", func() { r.VdivS(va.v, x) }, va.v, x) })
 		case 3:
 			ops = append(ops, ma, vk)
 			snapAll()
-			w.soft(w.how, func() { mkV(n).MdotV(ma.m, vk.v) })
+			w.soft(w.how, func() { r := mkV(n); call(r, "MDOTV", func() { r.MdotV(ma.m, vk.v) }, ma.m, vk.v) })
 		case 4:
 			ops = append(ops, va, ma)
 			snapAll()
-			w.soft(w.how, func() { mkV(k).VdotM(va.v, ma.m) })
+			w.soft(w.how, func() { r := mkV(k); call(r, "VDOTM", func() { r.VdotM(va.v, ma.m) }, va.v, ma.m) })
 		case 5:
 			ops = append(ops, ma, mc)
 			snapAll()
-			w.soft(w.how, func() { mkR(n, k).MaddM(ma.m, mc.m) })
+			w.soft(w.how, func() { r := mkR(n, k); call(r, "MADDM", func() { r.MaddM(ma.m, mc.m) }, ma.m, mc.m) })
 		case 6:
 			ops = append(ops, ma, mc)
 			snapAll()
-			w.soft(w.how, func() { mkR(n, k).MmulM(ma.m, mc.m) })
+			w.soft(w.how, func() { r := mkR(n, k); call(r, "MMULM", func() { r.MmulM(ma.m, mc.m) }, ma.m, mc.m) })
 		case 7:
 			ops = append(ops, ma, mb)
 			snapAll()
-			w.soft(w.how, func() { mkR(n, n).MdotM(ma.m, mb.m) })
+			w.soft(w.how, func() { r := mkR(n, n); call(r, "MDOTM", func() { r.MdotM(ma.m, mb.m) }, ma.m, mb.m) })
 		case 8:
 			ops = append(ops, va, vk)
 			snapAll()
-			w.soft(w.how, func() { mkR(n, k).Outer(va.v, vk.v) })
+			w.soft(w.how, func() { r := mkR(n, k); call(r, "OUTER", func() { r.Outer(va.v, vk.v) }, va.v, vk.v) })
 		case 9:
 			ops = append(ops, ma, va)
 			snapAll()
@@ -487,7 +498,50 @@ func RunOperands(c *core.Ctx) {
 		case 11:
 			ops = append(ops, va, vb, ma, mc)
 			snapAll()
-			w.soft(w.how, func() { va.v.Equals(vb.v, 1e-8); ma.m.Equals(mc.m, 1e-8); _ = fmt.Sprint(va.v, ma.m); _ = ma.m.Table() })
+			w.soft(w.how, func() {
+				va.v.Equals(vb.v, 1e-8)
+				ma.m.Equals(mc.m, 1e-8)
+				reflectBool(va.v, "EQUALS", vb.v, 1e-8)
+				reflectBool(ma.m, "EQUALS", mc.m, 1e-8)
+				_ = fmt.Sprint(va.v, ma.m)
+				_ = ma.m.Table()
+			})
+		case 12:
+			ops = append(ops, va, vb)
+			snapAll()
+			w.soft(w.how, func() { r := mkV(n); call(r, "VSUBV", func() { r.VsubV(va.v, vb.v) }, va.v, vb.v) })
+		case 13:
+			ops = append(ops, va, vb)
+			snapAll()
+			w.soft(w.how, func() { r := mkV(n); call(r, "VDIVV", func() { r.VdivV(va.v, vb.v) }, va.v, vb.v) })
+		case 14:
+			ops = append(ops, va)
+			snapAll()
+			w.soft(w.how, func() { r, x := mkV(n), ad.NewScalar(e.t, 3); call(r, "VADDS", func() { r.VaddS(va.v, x) }, va.v, x) })
+		case 15:
+			ops = append(ops, va)
+			snapAll()
+			w.soft(w.how, func() { r, x := mkV(n), ad.NewScalar(e.t, 3); call(r, "VMULS", func() { r.VmulS(va.v, x) }, va.v, x) })
+		case 16:
+			ops = append(ops, ma, mc)
+			snapAll()
+			w.soft(w.how, func() { r := mkR(n, k); call(r, "MSUBM", func() { r.MsubM(ma.m, mc.m) }, ma.m, mc.m) })
+		case 17:
+			ops = append(ops, ma, mc)
+			snapAll()
+			w.soft(w.how, func() { r := mkR(n, k); call(r, "MDIVM", func() { r.MdivM(ma.m, mc.m) }, ma.m, mc.m) })
+		case 18:
+			ops = append(ops, ma)
+			snapAll()
+			w.soft(w.how, func() { r, x := mkR(n, k), ad.NewScalar(e.t, 3); call(r, "MADDS", func() { r.MaddS(ma.m, x) }, ma.m, x) })
+		case 19:
+			ops = append(ops, ma)
+			snapAll()
+			w.soft(w.how, func() { r, x := mkR(n, k), ad.NewScalar(e.t, 3); call(r, "MMULS", func() { r.MmulS(ma.m, x) }, ma.m, x) })
+		case 20:
+			ops = append(ops, ma)
+			snapAll()
+			w.soft(w.how, func() { r, x := mkR(n, k), ad.NewScalar(e.t, 2); call(r, "MDIVS", func() { r.MdivS(ma.m, x) }, ma.m, x) })
 		}
 		checkAll(w.how)
 		c.StateStr(w.how + storageName(sa) + storageName(sb) + storageName(sr) + e.name)
